@@ -42,7 +42,7 @@ class Builder(object):
 
     def common_reads(self, obj, path):
         r = self.r
-        k = r.randrange(9)
+        k = r.randrange(10)
         self.stats['interleaved reads'] += 1
         if k == 0:
             c = r.choice(['BER', 'CER', 'DER']); self.say('%s: encode %s' % (path, c)); I.run_encode(c, obj)
@@ -60,6 +60,8 @@ class Builder(object):
             self.say('%s: == / !=' % path); self.quiet(lambda: (obj == obj.clone(), obj != 5))
         elif k == 7:
             self.say('%s: BER indefinite chunked encode' % path); I.run_encode('BER', obj, defMode=False, maxChunkSize=3)
+        elif k == 9:
+            self.say('%s: retagged / re-constrained types derived by clone(...) / subtype(...), results discarded' % path); derive_types(obj)
         else:
             self.say('%s: bool' % path); self.quiet(lambda: bool(obj))
 
@@ -755,6 +757,67 @@ def reads_inert_checks(ctx, cases):
                               dict(m, clone=jsonable(safe_eq(y, twin)), original=jsonable(before[3])), finding=f20b)
 
 
+def derive_types(x, quiet=None):
+    """read-only uses of x that build other type/value objects FROM it (results discarded): retagged, re-constrained
+    flavours by clone(...) and subtype(...)"""
+    from pyasn1.type import tag as _tag, constraint as _cn
+    t1 = _tag.Tag(_tag.tagClassContext, _tag.tagFormatSimple, 9)
+    t2 = _tag.Tag(_tag.tagClassApplication, _tag.tagFormatConstructed, 40)
+    ops = [lambda: x.clone(tagSet=x.tagSet.tagExplicitly(t2) if x.tagSet else _tag.initTagSet(t2)),
+           lambda: x.subtype(explicitTag=t1),
+           lambda: x.clone(subtypeSpec=_cn.ConstraintsIntersection())]
+    if x.tagSet:
+        ops.append(lambda: x.subtype(implicitTag=t2))
+    if isinstance(x, (univ.SequenceOfAndSetOfBase, univ.SequenceAndSetBase)):
+        ops.append(lambda: x.clone(componentType=x.componentType))
+    for f in ops:
+        try:
+            f()
+        except error.PyAsn1Error:
+            pass
+
+
+def derive_inert_checks(ctx, cases):
+    """deriving other types from a value (clone/subtype with overriding tags or constraints, results thrown away) is a
+    read-only use: afterwards the value, its clone(cloneValueFlag=True), a value decoded with it as the guiding object, and
+    (simple types) a value made from it by clone(v) all encode as before"""
+    for c in cases:
+        T, v = c.T, c.v
+        if c.want[0] == 'bad':
+            continue
+        x = U.build_value(T, v, spec=U.build_type(T))
+        before = (I.run_encode('DER', x)[:2], I.run_encode('CER', x)[:2])
+        if before[0][0] != 'ok':
+            continue
+        derive_types(x)
+        ctx.case(('derive-inert', c.cty, c.cval), True)
+        m = {'T': jsonable(T), 'v': jsonable(v)}
+        after = (I.run_encode('DER', x)[:2], I.run_encode('CER', x)[:2])
+        if after != before:
+            ctx.prop_fail('deriving retagged/re-constrained types from a value changed its DER/CER', dict(m, before=jsonable(before), after=jsonable(after)))
+            continue
+        constructed = base_desc(T)[0] in CONSTRUCTED
+        if constructed and has_memberless_record(T, v):
+            continue
+        try:
+            y = x.clone(cloneValueFlag=True) if constructed else x.clone(x._value)
+        except error.PyAsn1Error as e:
+            ctx.prop_fail('a value cannot be cloned any more after other types were derived from it: %s' % type(e).__name__, m); continue
+        ey = (I.run_encode('DER', y)[:2], I.run_encode('CER', y)[:2])
+        if ey != before:
+            ctx.prop_fail('a clone taken after other types were derived from the value encodes differently', dict(m, clone=jsonable(ey), original=jsonable(before)))
+            continue
+        if any_canonical(T, v, 'DER'):
+            d = I.run_decode('DER', before[0][1], asn1Spec=x)
+            if d[0] == 'ok':
+                ez = I.run_encode('DER', d[1])[:2]
+                d0 = I.run_decode('DER', before[0][1], asn1Spec=U.build_type(T))
+                e0 = I.run_encode('DER', d0[1])[:2] if d0[0] == 'ok' else None
+                if e0 is not None and ez != e0:
+                    ctx.prop_fail('decoding DER with the value as guiding object, after other types were derived from it, re-encodes differently',
+                                  dict(m, reencoded=jsonable(ez), fresh=jsonable(e0)))
+
+
 def fixed_orders(ctx):
     """deterministic histories: every position of a SEQUENCE OF / SET OF first assigned in descending order,
     directly and through an element built in place, against the ascending twin"""
@@ -821,9 +884,9 @@ def run(ctx):
     ctx.rule = ('random (type, value) of the universe (depth<=3) plus targeted SET/SET OF/DEFAULT cases and SEQUENCE/SET types with DEFAULT components of SEQUENCE OF / SEQUENCE type (multi-member defaults; values equal to the default, absent, reordered, different); per case one plain object and one '
                 'built by a random construction history (random assignment order by name/position/tag, SET OF members shuffled, DEFAULT '
                 'explicit or left out, SEQUENCE OF/SET OF positions assigned in a random order by s[i]= / setComponentByPosition after an appended prefix, record members built in place through s[i][name]=, parts decoded from indefinite/chunked BER or CER/DER forms, clone(cloneValueFlag=True), interleaved '
-                'encode/print/iterate/len/compare/getComponentBy*(instantiate=False and True) reads); every 5th history may also enter the '
+                'encode/print/iterate/len/compare/getComponentBy*(instantiate=False and True) reads and derivations of retagged/re-constrained types by clone(...)/subtype(...)); every 5th history may also enter the '
                 'classes of the open findings F18a/F18d/F18j; compared: DER and CER of both, a second encode, re-encoding of the decoded DER/CER; '
-                'plus, per case: clone(cloneValueFlag=True) then an in-place edit at least one level down in the clone (resp. the original) with the other side compared to its snapshot (DER, CER, content, members), and DEFAULT constructed components read, edited in place, then the type\'s DEFAULT, a fresh instance and the DER round trip checked; non-trivial = constructed type with at least 2 recorded history steps')
+                'plus, per case: clone(cloneValueFlag=True) then an in-place edit at least one level down in the clone (resp. the original) with the other side compared to its snapshot (DER, CER, content, members), and DEFAULT constructed components read, edited in place, then the type\'s DEFAULT, a fresh instance and the DER round trip checked; and per case: other types derived from the value, then the value, its clone and a value decoded with it as guiding object re-encoded; non-trivial = constructed type with at least 2 recorded history steps')
     dcases = constructed_default_cases(ctx, ctx.n(40, 400))
     ctx.stats['cases with a DEFAULT component of constructed type'] = len(dcases)
     cases = targeted() + dcases + codec.gen_cases(ctx, ctx.n(150, 2500), depth=3)
@@ -832,6 +895,7 @@ def run(ctx):
     fixed_default_orders(ctx)
     aliasing_checks(ctx, cases)
     reads_inert_checks(ctx, cases)
+    derive_inert_checks(ctx, cases)
     for n, c in enumerate(cases):
         for rep in range(2 if base_desc(c.T)[0] in CONSTRUCTED else 1):
             check_case(ctx, c, wild=(n % 5 == 4 and rep == 1), exprs=exprs, meta=meta)
